@@ -150,6 +150,11 @@ func (w *World) opCreateApp() {
 	if a.Kind == "foo" && (w.prop == "C11" || w.prop == "C18") {
 		// "any owner kind": kinds whose lower-case form ends in s / ss, digits
 		a.OwnerKind = pick(c, []string{"Foo", "Wordpress", "Redis", "Harness", "Db2"})
+		if w.prop == "C11" && c.Prob(1, 4) {
+			// spellings the key format maps onto the two built-in prefixes: a pod owned directly by a Deployment, and
+			// other spellings of StatefulSet
+			a.OwnerKind = pick(c, []string{"Deployment", "StatefulSets", "statefulset", "Replicaset"})
+		}
 	}
 	if w.prop == "C11" {
 		// DNS-1123 edge shapes: inner dashes, names ending in -<n>, digits first, long names
@@ -191,12 +196,20 @@ func (w *World) genRanges() [][]string {
 		var list []string
 		n := w.C.Range(1, 2)
 		for j := 0; j < n; j++ {
-			ip := ips[w.C.Choose(len(ips))]
+			at := w.C.Choose(len(ips))
+			ip := ips[at]
 			if used[ip] {
 				continue
 			}
 			used[ip] = true
 			list = append(list, ip)
+			// sometimes a run of neighbouring addresses (written as one "a~b" range in the annotation)
+			for k := 1; k <= 2 && at+k < len(ips) && w.C.Prob(1, 3); k++ {
+				if nb := ips[at+k]; !used[nb] {
+					used[nb] = true
+					list = append(list, nb)
+				}
+			}
 		}
 		if len(list) > 0 {
 			out = append(out, list)
